@@ -10,6 +10,7 @@ import (
 	"os"
 	"path/filepath"
 	"sort"
+	"strconv"
 	"strings"
 	"sync/atomic"
 
@@ -106,10 +107,39 @@ func sortLogNamesOldToNew(dirEntries []os.DirEntry) []string {
 	//   $ test-app /var/log/audit/
 	//   [audit.log.4 audit.log.3 audit.log.2 audit.log.1 audit.log]
 	sort.Slice(oldestToNew, func(i, j int) bool {
+		// Compare the rotation numbers numerically so that, for
+		// example, "audit.log.10" is older than "audit.log.9".
+		numI, okI := logRotationNumber(oldestToNew[i])
+		numJ, okJ := logRotationNumber(oldestToNew[j])
+		if okI && okJ && numI != numJ {
+			return numI > numJ
+		}
+
 		return oldestToNew[i] > oldestToNew[j]
 	})
 
 	return oldestToNew
+}
+
+// logRotationNumber returns the rotation number of an audit log file
+// name: zero for "audit.log" and N for "audit.log.N". The boolean is
+// false if the name has a different form.
+func logRotationNumber(name string) (int, bool) {
+	if name == "audit.log" {
+		return 0, true
+	}
+
+	suffix := strings.TrimPrefix(name, "audit.log.")
+	if suffix == name {
+		return 0, false
+	}
+
+	num, err := strconv.Atoi(suffix)
+	if err != nil || num < 0 {
+		return 0, false
+	}
+
+	return num, true
 }
 
 // LogDirReader reads audit logs from a directory and tails the active
